@@ -31,7 +31,7 @@ use hickory_net::runtime::Time;
 use hickory_net::xfer::{BufDnsStreamHandle, DnsClientStream, DnsMultiplexer, DnsRequestSender};
 use hickory_net::NetError;
 use hickory_proto::op::{DnsRequest, DnsRequestOptions, Message, MessageType, OpCode, Query, ResponseCode, SerialMessage};
-use hickory_proto::rr::rdata::tsig::{make_tsig_record, TsigAlgorithm, TSIG};
+use hickory_proto::rr::rdata::tsig::{make_tsig_record, TsigAlgorithm, TsigError, TSIG};
 use hickory_proto::rr::rdata::{A, SOA};
 use hickory_proto::rr::{Name, RData, Record, RecordType, TSigResponseContext, TSigner};
 use rand::rngs::StdRng;
@@ -143,15 +143,34 @@ enum Kind {
     BitFlip,
     BadMac,
     OtherKey,
+    /// TSIG with an empty MAC and the given error code (0, BADSIG 16, BADKEY 17, BADTIME 18,
+    /// BADTRUNC 22), RCODE NOTAUTH or NOERROR, with or without records of the attacker's: the
+    /// shape of the unsigned error response of RFC 8945 5.2.1/5.2.2 -- anybody can make one
+    EmptyMac { error: u16, notauth: bool, answers: bool },
+    /// one bit flipped in the header (0), in the question / answer sections (1), in the TSIG RDATA (2)
+    BitFlipIn(u8),
+    /// the genuine MAC cut to 8 octets (below the minimum RFC 8945 5.2.4 allows)
+    TruncMac,
+    /// the genuine message with the TSIG record removed
+    Unsigned,
+    /// a genuinely signed reply to a DIFFERENT request, its ID rewritten to this request's
+    Replay,
 }
 
 impl Kind {
-    fn name(self) -> &'static str {
+    fn name(self) -> String {
         match self {
-            Kind::Genuine => "genuine",
-            Kind::BitFlip => "bitflip",
-            Kind::BadMac => "badmac",
-            Kind::OtherKey => "otherkey",
+            Kind::Genuine => "genuine".into(),
+            Kind::BitFlip => "bitflip".into(),
+            Kind::BitFlipIn(r) => format!("bitflip-{}", ["header", "body", "tsig"][r as usize % 3]),
+            Kind::BadMac => "badmac".into(),
+            Kind::OtherKey => "otherkey".into(),
+            Kind::EmptyMac { error, notauth, answers } => {
+                format!("emptymac-e{error}-{}{}", if notauth { "notauth" } else { "noerror" }, if answers { "-records" } else { "" })
+            }
+            Kind::TruncMac => "truncmac".into(),
+            Kind::Unsigned => "unsigned".into(),
+            Kind::Replay => "replay".into(),
         }
     }
 }
@@ -163,14 +182,57 @@ struct Built {
     key_name_len: usize, // wire length of the TSIG owner name
 }
 
+#[derive(Clone)]
+enum Mac {
+    Computed,
+    Override(Vec<u8>),
+    Empty,
+    Trunc(usize),
+    /// no TSIG record at all
+    Absent,
+}
+
+#[derive(Clone)]
+struct Shape {
+    mac: Mac,
+    error: Option<TsigError>,
+    notauth: bool,
+    attacker_records: bool,
+}
+
+impl Shape {
+    fn genuine() -> Self {
+        Shape { mac: Mac::Computed, error: None, notauth: false, attacker_records: false }
+    }
+}
+
+fn tsig_error(code: u16) -> Option<TsigError> {
+    match code {
+        0 => None,
+        16 => Some(TsigError::BadSig),
+        17 => Some(TsigError::BadKey),
+        18 => Some(TsigError::BadTime),
+        22 => Some(TsigError::BadTrunc),
+        c => Some(TsigError::Unknown(c)),
+    }
+}
+
 /// message `i` (1-based) of `n` of the reply to `request`, signed with `secret`, chained on `prior`
 fn build(request: &Message, op: &str, i: usize, n: usize, secret: &[u8], prior: &[u8], mac_override: Option<Vec<u8>>) -> Built {
+    let mut shape = Shape::genuine();
+    if let Some(m) = mac_override {
+        shape.mac = Mac::Override(m);
+    }
+    build_shape(request, op, i, n, secret, prior, &shape)
+}
+
+fn build_shape(request: &Message, op: &str, i: usize, n: usize, secret: &[u8], prior: &[u8], shape: &Shape) -> Built {
     let mut m = Message::response(request.id, request.op_code);
     m.metadata.message_type = MessageType::Response;
-    m.metadata.response_code = ResponseCode::NoError;
+    m.metadata.response_code = if shape.notauth { ResponseCode::NotAuth } else { ResponseCode::NoError };
     m.metadata.authoritative = true;
     m.add_queries(request.queries.clone());
-    if op == "axfr" {
+    if op == "axfr" && !shape.notauth {
         let mut answers = Vec::new();
         if i == 1 {
             answers.push(soa());
@@ -181,19 +243,19 @@ fn build(request: &Message, op: &str, i: usize, n: usize, secret: &[u8], prior: 
         }
         m.add_answers(answers);
     }
+    if shape.attacker_records {
+        m.add_answers(vec![Record::from_rdata(Name::from_str("www.example.com.").unwrap(), 3600, RData::A(A::new(203, 0, 113, 66)))]);
+    }
     let unsigned = m.to_vec().expect("encode");
+    let key_name_len = Name::from_str(KEY_NAME).unwrap().iter().map(|l| l.len() + 1).sum::<usize>() + 1;
+    if matches!(shape.mac, Mac::Absent) {
+        return Built { tsig_at: unsigned.len(), bytes: unsigned, mac: Vec::new(), key_name_len };
+    }
     let time = T0 + i as u64 - 1;
     let s = signer(secret);
-    let rec = if i == 1 {
+    let computed: Vec<u8> = if i == 1 {
         // the first message is signed by the code the server uses (Catalog -> TSigResponseContext)
-        let mut r = TSigResponseContext::new(request.id, time, s.clone(), prior.to_vec(), None).sign(&unsigned).expect("sign");
-        if let Some(mac) = mac_override {
-            r = Box::new(make_tsig_record(
-                s.signer_name().clone(),
-                TSIG::new(TsigAlgorithm::HmacSha256, time, FUDGE, mac, request.id, None, Vec::new()),
-            ));
-        }
-        r
+        TSigResponseContext::new(request.id, time, s.clone(), prior.to_vec(), None).sign(&unsigned).expect("sign").data.mac.clone()
     } else {
         // RFC 8945 5.3.1: later messages are signed over prior MAC | message | time | fudge
         let mut tbs = Vec::new();
@@ -202,24 +264,64 @@ fn build(request: &Message, op: &str, i: usize, n: usize, secret: &[u8], prior: 
         tbs.extend_from_slice(&unsigned);
         tbs.extend_from_slice(&time.to_be_bytes()[2..]);
         tbs.extend_from_slice(&FUDGE.to_be_bytes());
-        let mac = mac_override.unwrap_or_else(|| hmac(secret, &tbs));
-        Box::new(make_tsig_record(
-            s.signer_name().clone(),
-            TSIG::new(TsigAlgorithm::HmacSha256, time, FUDGE, mac, request.id, None, Vec::new()),
-        ))
+        hmac(secret, &tbs)
     };
-    let mac = rec.data.mac.clone();
+    let mac = match &shape.mac {
+        Mac::Computed => computed,
+        Mac::Override(m) => m.clone(),
+        Mac::Empty => Vec::new(),
+        Mac::Trunc(k) => computed[..*k].to_vec(),
+        Mac::Absent => unreachable!(),
+    };
+    // BADTIME carries the server's clock in Other Data
+    let other = if matches!(shape.error, Some(TsigError::BadTime)) { time.to_be_bytes()[2..].to_vec() } else { Vec::new() };
+    let rec = Box::new(make_tsig_record(
+        s.signer_name().clone(),
+        TSIG::new(TsigAlgorithm::HmacSha256, time, FUDGE, mac.clone(), request.id, shape.error, other),
+    ));
     m.set_signature(rec);
     let bytes = m.to_vec().expect("encode signed");
-    let key_name_len = Name::from_str(KEY_NAME).unwrap().iter().map(|l| l.len() + 1).sum::<usize>() + 1;
     Built { bytes, mac, tsig_at: unsigned.len(), key_name_len }
+}
+
+/// what arrives in place of (or in front of) the genuine message `i` of the reply
+fn altered(kind: Kind, request: &Message, op: &str, i: usize, n: usize, prior: &[u8], genuine: &Built, rng: &mut StdRng) -> (Vec<u8>, usize) {
+    match kind {
+        Kind::Genuine => (genuine.bytes.clone(), 0),
+        Kind::BitFlip => flip_bit(genuine, 2, genuine.bytes.len(), rng),
+        Kind::BitFlipIn(r) => match r % 3 {
+            0 => flip_bit(genuine, 2, 12, rng),
+            1 => flip_bit(genuine, 12, genuine.tsig_at, rng),
+            _ => flip_bit(genuine, genuine.tsig_at + genuine.key_name_len, genuine.bytes.len(), rng),
+        },
+        Kind::BadMac => {
+            let mac: Vec<u8> = if rng.random_bool(0.5) { vec![0x5a; 32] } else { (0..32).map(|_| rng.random::<u8>()).collect() };
+            (build(request, op, i, n, KEY, prior, Some(mac)).bytes, 0)
+        }
+        Kind::OtherKey => (build(request, op, i, n, OTHER_KEY, prior, None).bytes, 0),
+        Kind::EmptyMac { error, notauth, answers } => {
+            let shape = Shape { mac: Mac::Empty, error: tsig_error(error), notauth, attacker_records: answers };
+            (build_shape(request, op, i, n, KEY, prior, &shape).bytes, 0)
+        }
+        Kind::TruncMac => (build_shape(request, op, i, n, KEY, prior, &Shape { mac: Mac::Trunc(8), ..Shape::genuine() }).bytes, 0),
+        Kind::Unsigned => (build_shape(request, op, i, n, KEY, prior, &Shape { mac: Mac::Absent, ..Shape::genuine() }).bytes, 0),
+        Kind::Replay => {
+            // a genuine reply to another request of the same kind: other ID, other request MAC
+            let mut other = request.clone();
+            other.metadata.id = request.id ^ 0x5a5a;
+            let other_mac = hmac(KEY, &other.metadata.id.to_be_bytes());
+            let mut b = build(&other, op, i, n, KEY, &other_mac, None).bytes;
+            b[..2].copy_from_slice(&request.id.to_be_bytes()); // the ID is not covered by the MAC
+            (b, 0)
+        }
+    }
 }
 
 /// flips one bit that the MAC has to cover: not in the message ID (octets 0-1, replaced by the
 /// original ID before the MAC is computed) and not the letter-case bit of the key name
-fn flip_bit(b: &Built, rng: &mut StdRng) -> (Vec<u8>, usize) {
+fn flip_bit(b: &Built, lo: usize, hi: usize, rng: &mut StdRng) -> (Vec<u8>, usize) {
     loop {
-        let byte = rng.random_range(2..b.bytes.len());
+        let byte = rng.random_range(lo..hi);
         let bit = rng.random_range(0..8usize);
         let in_key_name = byte >= b.tsig_at && byte < b.tsig_at + b.key_name_len;
         if in_key_name && bit == 5 && b.bytes[byte].is_ascii_alphabetic() {
@@ -300,15 +402,7 @@ fn one_case(case: &str, scenario: &str, op: &str, plan: &[Kind], inject: bool, r
     for (k, kind) in plan.iter().enumerate() {
         let i = k + 1;
         let genuine = build(&request, op, i, n, KEY, &prior, None);
-        let (bytes, at) = match kind {
-            Kind::Genuine => (genuine.bytes.clone(), 0),
-            Kind::BitFlip => flip_bit(&genuine, rng),
-            Kind::BadMac => {
-                let mac: Vec<u8> = if rng.random_bool(0.5) { vec![0x5a; 32] } else { (0..32).map(|_| rng.random::<u8>()).collect() };
-                (build(&request, op, i, n, KEY, &prior, Some(mac)).bytes, 0)
-            }
-            Kind::OtherKey => (build(&request, op, i, n, OTHER_KEY, &prior, None).bytes, 0),
-        };
+        let (bytes, at) = altered(*kind, &request, op, i, n, &prior, &genuine, rng);
         // an altered message either replaces the genuine one (the genuine successors chain on a
         // MAC the client never saw) or is injected in front of it (the genuine chain goes on)
         if *kind == Kind::Genuine || !inject {
@@ -356,7 +450,7 @@ fn one_case(case: &str, scenario: &str, op: &str, plan: &[Kind], inject: bool, r
 
 pub fn record(seed: u64, n: usize, trace: &mut dyn io::Write, out: &mut dyn io::Write) {
     let mut rng = StdRng::seed_from_u64(seed ^ 0x13_16);
-    let forged = [Kind::BitFlip, Kind::BadMac, Kind::OtherKey];
+    let forged = mux_forged_kinds();
     let mut emit = |ev: Value| {
         writeln!(trace, "{ev}").unwrap();
         writeln!(out, "{}", json!({"case": ev["case"], "scenario": ev["scenario"],
@@ -367,19 +461,216 @@ pub fn record(seed: u64, n: usize, trace: &mut dyn io::Write, out: &mut dyn io::
         // (a) single genuine reply
         emit(one_case(&format!("mt{seed}-{c}-a"), "single-genuine", op, &[Kind::Genuine], false, &mut rng));
         // (b) single reply, altered
-        let k = forged[c % 3];
+        let k = forged[c % forged.len()];
         emit(one_case(&format!("mt{seed}-{c}-b"), &format!("single-{}", k.name()), op, &[k], false, &mut rng));
         // (c) chain of 2-4 genuine messages
         let len = 2 + c % 3;
         emit(one_case(&format!("mt{seed}-{c}-c"), "chain-genuine", "axfr", &vec![Kind::Genuine; len], false, &mut rng));
         // (d) chain whose message k >= 2 has a flipped bit / a garbage MAC; (e) ... was signed with another key
-        for (tag, kind) in [("d1", Kind::BitFlip), ("d2", Kind::BadMac), ("e", Kind::OtherKey)] {
+        let empty = empty_mac_kinds();
+        let f = empty[(c * 7 + 3) % empty.len()];
+        for (tag, kind) in [("d1", Kind::BitFlip), ("d2", Kind::BadMac), ("e", Kind::OtherKey), ("f", f), ("g", Kind::TruncMac)] {
             let len = 2 + rng.random_range(0..3usize);
             let pos = rng.random_range(1..len); // 0-based index >= 1
             let mut plan = vec![Kind::Genuine; len];
             plan[pos] = kind;
             let inject = rng.random_bool(0.5);
             emit(one_case(&format!("mt{seed}-{c}-{tag}"), &format!("chain-{}", kind.name()), "axfr", &plan, inject, &mut rng));
+        }
+    }
+}
+
+/// TSIG records with an empty MAC: every error code x RCODE x with / without attacker records
+fn empty_mac_kinds() -> Vec<Kind> {
+    let mut v = Vec::new();
+    for error in [17u16, 16, 0, 18, 22] {
+        for notauth in [false, true] {
+            for answers in [true, false] {
+                v.push(Kind::EmptyMac { error, notauth, answers });
+            }
+        }
+    }
+    v
+}
+
+fn mux_forged_kinds() -> Vec<Kind> {
+    let mut v = vec![Kind::BitFlip, Kind::BadMac, Kind::OtherKey, Kind::TruncMac, Kind::Replay];
+    v.extend(empty_mac_kinds());
+    v
+}
+
+// ---------------------------------------------------------------------------------------------
+// `udp-tsig`: the same over the real UdpClientStream built with a signer.
+//
+// The scripted socket reads the signed request off `send_to` and answers from the queried
+// address and port with a sequence of replies (kinds as above plus `unsigned`).  The UDP client
+// returns on the first reply that passes its ID / question checks, so the outcome of the query
+// belongs to the last datagram the socket handed out; datagrams handed out before it were
+// skipped ("none"), datagrams never asked for were not looked at ("none").
+
+struct UdpShared {
+    op: &'static str,
+    plan: Vec<Kind>,
+    queue: VecDeque<Vec<u8>>,
+    handed_out: usize,
+    request_signed: bool,
+    rng: StdRng,
+    bits: Vec<usize>,
+}
+
+#[derive(Clone)]
+struct TsigProvider {
+    sh: Arc<Mutex<UdpShared>>,
+    server: SocketAddr,
+    handle: hickory_net::runtime::TokioHandle,
+}
+
+struct TsigSocket {
+    sh: Arc<Mutex<UdpShared>>,
+    server: SocketAddr,
+}
+
+struct NoTcp;
+impl futures_io::AsyncRead for NoTcp {
+    fn poll_read(self: Pin<&mut Self>, _cx: &mut Context<'_>, _buf: &mut [u8]) -> Poll<io::Result<usize>> {
+        Poll::Ready(Err(io::Error::other("no tcp")))
+    }
+}
+impl futures_io::AsyncWrite for NoTcp {
+    fn poll_write(self: Pin<&mut Self>, _cx: &mut Context<'_>, _buf: &[u8]) -> Poll<io::Result<usize>> {
+        Poll::Ready(Err(io::Error::other("no tcp")))
+    }
+    fn poll_flush(self: Pin<&mut Self>, _cx: &mut Context<'_>) -> Poll<io::Result<()>> {
+        Poll::Ready(Ok(()))
+    }
+    fn poll_close(self: Pin<&mut Self>, _cx: &mut Context<'_>) -> Poll<io::Result<()>> {
+        Poll::Ready(Ok(()))
+    }
+}
+impl hickory_net::runtime::DnsTcpStream for NoTcp {
+    type Time = FixedClock;
+}
+
+impl hickory_net::runtime::RuntimeProvider for TsigProvider {
+    type Handle = hickory_net::runtime::TokioHandle;
+    type Timer = FixedClock;
+    type Udp = TsigSocket;
+    type Tcp = NoTcp;
+    fn create_handle(&self) -> Self::Handle {
+        self.handle.clone()
+    }
+    fn connect_tcp(&self, _s: SocketAddr, _b: Option<SocketAddr>, _t: Option<Duration>) -> Pin<Box<dyn Send + Future<Output = Result<Self::Tcp, io::Error>>>> {
+        Box::pin(async { Err(io::Error::other("no tcp")) })
+    }
+    fn bind_udp(&self, _local: SocketAddr, _server: SocketAddr) -> Pin<Box<dyn Send + Future<Output = Result<Self::Udp, io::Error>>>> {
+        let (sh, server) = (self.sh.clone(), self.server);
+        Box::pin(async move { Ok(TsigSocket { sh, server }) })
+    }
+}
+
+#[async_trait]
+impl hickory_net::runtime::DnsUdpSocket for TsigSocket {
+    type Time = FixedClock;
+    fn poll_recv_from(&self, _cx: &mut Context<'_>, buf: &mut [u8]) -> Poll<io::Result<(usize, SocketAddr)>> {
+        let mut s = self.sh.lock().unwrap();
+        match s.queue.pop_front() {
+            None => Poll::Pending, // nothing more arrives: the query runs into its timeout
+            Some(b) => {
+                let n = b.len().min(buf.len());
+                buf[..n].copy_from_slice(&b[..n]);
+                s.handed_out += 1;
+                Poll::Ready(Ok((n, self.server)))
+            }
+        }
+    }
+    fn poll_send_to(&self, _cx: &mut Context<'_>, buf: &[u8], _target: SocketAddr) -> Poll<io::Result<usize>> {
+        let mut guard = self.sh.lock().unwrap();
+        let s = &mut *guard;
+        if let Ok(request) = Message::from_vec(buf) {
+            if let Some(req_tsig) = request.signature() {
+                s.request_signed = signer(KEY).verify_message_byte(buf, None, true).is_ok();
+                let prior = req_tsig.data.mac.clone();
+                let genuine = build(&request, s.op, 1, 1, KEY, &prior, None);
+                for kind in s.plan.clone() {
+                    let (bytes, at) = altered(kind, &request, s.op, 1, 1, &prior, &genuine, &mut s.rng);
+                    s.queue.push_back(bytes);
+                    s.bits.push(at);
+                }
+            }
+        }
+        Poll::Ready(Ok(buf.len()))
+    }
+}
+
+async fn one_udp_case(case: &str, scenario: &str, op: &'static str, plan: &[Kind], seed: u64) -> Value {
+    use hickory_net::udp::UdpClientStream;
+    let server: SocketAddr = "192.0.2.53:53".parse().unwrap();
+    let sh = Arc::new(Mutex::new(UdpShared {
+        op,
+        plan: plan.to_vec(),
+        queue: VecDeque::new(),
+        handed_out: 0,
+        request_signed: false,
+        rng: StdRng::seed_from_u64(seed),
+        bits: Vec::new(),
+    }));
+    let provider = TsigProvider { sh: sh.clone(), server, handle: Default::default() };
+    let mut stream = UdpClientStream::builder(server, provider)
+        .with_timeout(Some(Duration::from_millis(1000)))
+        .with_max_retries(1)
+        .with_signer(Some(signer(KEY)))
+        .build();
+    let mut opts = DnsRequestOptions::default();
+    opts.use_edns = false;
+    let req = if op == "axfr" {
+        DnsRequest::from_query(Query::new(origin(), RecordType::AXFR), opts)
+    } else {
+        let mut m = Message::new(seed as u16 ^ 0x1357, MessageType::Query, OpCode::Update);
+        m.add_query(Query::new(origin(), RecordType::SOA));
+        m.authorities.push(www(200));
+        DnsRequest::new(m, opts)
+    };
+    let mut rs = stream.send_message(req);
+    let (outcome, detail) = match rs.next().await {
+        Some(Ok(resp)) => ("ok", format!("rcode {} answers {}", resp.response_code, resp.answers.len())),
+        Some(Err(e)) => ("err", e.to_string()),
+        None => ("none", "timeout".to_string()),
+    };
+    let s = sh.lock().unwrap();
+    let msgs: Vec<Value> = plan
+        .iter()
+        .enumerate()
+        .map(|(k, kind)| {
+            // the outcome belongs to the last datagram handed out
+            let result = if k + 1 == s.handed_out && outcome != "none" { outcome } else { "none" };
+            json!({"kind": kind.name(), "result": result, "bit": s.bits.get(k).copied().unwrap_or(0),
+                   "detail": if k + 1 == s.handed_out { detail.clone() } else { String::new() }})
+        })
+        .collect();
+    json!({"ev": "udpreply", "case": case, "scenario": scenario, "op": op, "request_signed": s.request_signed,
+           "examined": s.handed_out, "msgs": msgs})
+}
+
+pub async fn record_udp(seed: u64, n: usize, trace: &mut dyn io::Write, out: &mut dyn io::Write) {
+    let mut forged = mux_forged_kinds();
+    forged.push(Kind::Unsigned);
+    forged.extend([Kind::BitFlipIn(0), Kind::BitFlipIn(1), Kind::BitFlipIn(2)]);
+    let mut emit = |ev: Value| {
+        writeln!(trace, "{ev}").unwrap();
+        writeln!(out, "{}", json!({"case": ev["case"], "scenario": ev["scenario"],
+            "results": ev["msgs"].as_array().unwrap().iter().map(|m| format!("{}:{}", m["kind"].as_str().unwrap(), m["result"].as_str().unwrap())).collect::<Vec<_>>()})).unwrap();
+    };
+    let mut k = 0u64;
+    for c in 0..n {
+        for op in ["axfr", "update"] {
+            k += 1;
+            emit(one_udp_case(&format!("ut{seed}-{c}-{op}-a"), "single-genuine", op, &[Kind::Genuine], seed * 1000 + k).await);
+            // every forged kind, alone and in front of the genuine reply
+            for (j, kind) in forged.iter().enumerate() {
+                k += 1;
+                let plan: Vec<Kind> = if (c + j) % 2 == 0 { vec![*kind] } else { vec![*kind, Kind::Genuine] };
+                emit(one_udp_case(&format!("ut{seed}-{c}-{op}-{j}"), &format!("forged-{}", kind.name()), op, &plan, seed * 1000 + k).await);
+            }
         }
     }
 }
